@@ -56,9 +56,10 @@ def snapshot(df):
     return [col_fp(df[c].values.astype(float)) for c in df.columns]
 
 
-def analysis_tables(ctx, n, seed_off, max_len=800, kinds=None):
+def analysis_tables(ctx, n, seed_off, max_len=800, kinds=None, large=(0, 0)):
     from bycycle.features import compute_features
     cases = gen.corpus(ctx.seed * 1000 + seed_off, n, max_len=max_len, kinds=kinds)
+    cases += gen.large_cases(ctx.seed * 1000 + 700 + seed_off, large[0], large[1])          # tables of hundreds / thousands of cycles, sample indices beyond 2^15 / 2^16
     out = []
     for c in cases:
         o = copy.deepcopy(c['opts'])
